@@ -1042,10 +1042,12 @@ func (x *Exec) refineMethod(st *State, tag string, ins *ssa.MakeInterface, fn *s
 	}
 	envT := &Env{x: x, st: st, names: nT, cur: st.H, old: st.H, tctx: tctxT, entryNames: nT, alloc: st.alloc}
 	for _, c := range specT.Requires {
-		if c.Label == "inv" || c.Label == "deps" || c.Label == "wf" {
+		if c.Label == "inv" || c.Label == "deps" || c.Label == "wf" || c.Label == "unlocked" {
 			// object invariant: established by the constructor and re-established by every method of the
 			// implementation (each has `ensures inv`); that nothing else writes the representation in
-			// between is the encapsulation assumption reported with the evidence
+			// between is the encapsulation assumption reported with the evidence.  `unlocked` (the calling
+			// operation holds none of the store's locks on entry; every operation releases what it took) is
+			// the same kind of entry condition
 			st.assume(x.evalBool(envT, c.E))
 			x.warn("object invariant of %s assumed at the interface boundary (encapsulation)", specT.Name)
 			continue
